@@ -201,9 +201,14 @@ def gen_auto(rng, n):
             cnt = int(np.prod(shape))
         pz = rng.choice([0.0, 0.2, 0.45])
         pts = [[Z(0) if rng.random() < pz else C.rz(rng, field, 6, 3) for _ in range(dim + 1)] for _ in range(cnt)]
-        if rng.random() < 0.15:          # no chart at all: every column has a zero somewhere
+        if rng.random() < 0.2:           # no chart at all: every column has a zero somewhere
             for c in range(dim + 1):
                 pts[rng.randrange(cnt)][c] = Z(0)
+            if cnt >= dim + 1 and rng.random() < 0.5:      # the standard basis e_0..e_n, or a family with pts[i][i] == 0
+                basis = rng.random() < 0.5
+                for i in range(dim + 1):
+                    pts[i] = [Z(1) if (j == i) == basis else (Z(0) if basis or j == i else C.rz(rng, field, 6, 3, nonzero=True))
+                              for j in range(dim + 1)]
         yield {"dim": dim, "field": field, "shape": shape, "layout": layout, "pts": C.enc(pts, field)}
 
 
@@ -217,16 +222,20 @@ def run_auto(inp):
             aff = np.moveaxis(aff, -1, -2)
         else:
             aff, chart = P.affine_coords(pts.copy(), chart_index=None)
-        out = {"aff": tolist(aff), "chart": int(chart)}
-        # the same call with the chosen chart given explicitly must agree (option combinations are consistent)
+    except GeometryError:
+        return {"aff": "GeometryError"}
+    out = {"aff": tolist(aff), "chart": int(chart), "finite": bool(np.all(np.isfinite(np.asarray(aff))))}
+    # the same call with the chosen chart given explicitly must agree (option combinations are consistent); kept OUTSIDE the
+    # try above: what the explicit call does must not hide what the automatic call did
+    try:
         if col:
             ex = np.moveaxis(P.affine_coords(np.moveaxis(pts, -1, -2).copy(), chart_index=int(chart), column_vectors=True), -1, -2)
         else:
             ex = P.affine_coords(pts.copy(), chart_index=int(chart))
         out["explicit_same"] = bool(np.asarray(ex).shape == np.asarray(aff).shape and np.all(np.asarray(ex) == np.asarray(aff)))
-        return out
     except GeometryError:
-        return {"aff": "GeometryError"}
+        out["explicit_same"] = False
+    return out
 
 
 def lean_auto(inp, obs):
@@ -245,6 +254,9 @@ def judge_auto(inp, obs, lr):
     m = r["ok"]
     pts = C.dec(inp["pts"], f).reshape(-1, dim + 1)
     some_chart = bool(np.any(np.all(pts != 0, axis=0)))
+    if obs["aff"] != "GeometryError" and not obs.get("finite", True):
+        return {"expected": "finite coordinates or GeometryError", "observed": "inf/nan coordinates in chart %r" % obs.get("chart"),
+                "tags": dict(tags0, nonfinite=True), "property_failure": True}
     if "err" in m:
         if obs["aff"] != "GeometryError":
             return {"expected": "GeometryError: no standard chart contains all the points", "observed": obs,
@@ -1076,6 +1088,29 @@ def gen_eig_o(rng, n):
                 g = np.array([[fnum(rng, cplx, 1.0) for _ in range(m)] for _ in range(m)])
                 if np.linalg.cond(g) < 50:
                     break
+            if kind == "generic" and rng.random() < 0.6:
+                # structured matrices: symmetric (real, and COMPLEX symmetric non-Hermitian), Hermitian, skew, normal, near-defective
+                st = rng.choice(["sym", "csym", "csym_imag", "herm", "skew", "normal", "near_defective"])
+                Cm = np.array([[complex(rng.gauss(0, 1), rng.gauss(0, 1)) for _ in range(m)] for _ in range(m)])
+                Rm = Cm.real.copy()
+                if st == "sym":
+                    g = Rm + Rm.T
+                elif st == "csym":
+                    g = Cm + Cm.T
+                elif st == "csym_imag":
+                    g = 1j * (Rm + Rm.T) + np.diag(np.arange(m) * 0.7)
+                elif st == "herm":
+                    g = Cm + Cm.conj().T
+                elif st == "skew":
+                    g = Rm - Rm.T
+                elif st == "normal":
+                    Qm, _ = np.linalg.qr(Cm)
+                    g = Qm @ np.diag([complex(rng.gauss(0, 1), rng.gauss(0, 1)) for _ in range(m)]) @ Qm.conj().T
+                else:
+                    Jd = np.diag(np.arange(1, m + 1) * 0.5)
+                    Jd[0, 1] = 1.0
+                    Jd[1, 1] = Jd[0, 0] + 1e-4
+                    g = np.linalg.inv(Rm + 3 * np.eye(m)) @ Jd @ (Rm + 3 * np.eye(m))
             if kind == "real_spectrum":
                 lam = np.array(sorted(rng.sample(range(-9, 10), m))) / 2.0 + 0.25
                 if rng.random() < 0.3:
